@@ -17,6 +17,7 @@ import (
 	"os"
 	"path/filepath"
 	"sort"
+	"strings"
 	"time"
 
 	"github.com/lidofinance/dc4bc/airgapped"
@@ -43,9 +44,19 @@ const topic = "verif"
 type memLogger struct {
 	name  string
 	lines []string
+	// failed: offset of a message the poll tick could not process -> the error it logged
+	failed map[uint64]string
 }
 
 func (l *memLogger) Log(format string, args ...interface{}) {
+	if strings.HasPrefix(format, "Failed to process message with offset") && len(args) >= 2 {
+		if off, ok := args[0].(uint64); ok {
+			if l.failed == nil {
+				l.failed = map[uint64]string{}
+			}
+			l.failed[off] = fmt.Sprint(args[1])
+		}
+	}
 	if len(l.lines) < 20000 {
 		l.lines = append(l.lines, fmt.Sprintf(format, args...))
 	}
@@ -119,6 +130,9 @@ type storageWrap struct {
 	rewrite func(storage.Message) storage.Message
 	// readHook is told about GetMessages / IgnoreMessages
 	readHook func(op string)
+	// limit: at most so many messages per read (a tick that brings only the next k messages); lastRead: what the last read returned
+	limit    int
+	lastRead []storage.Message
 }
 
 func (s *storageWrap) Send(m ...storage.Message) error {
@@ -137,18 +151,25 @@ func (s *storageWrap) GetMessages(o uint64) ([]storage.Message, error) {
 		s.readHook("getmessages")
 	}
 	ms, err := s.inner.GetMessages(o)
-	if err != nil || (s.filter == nil && s.rewrite == nil) {
+	if err != nil {
 		return ms, err
 	}
-	var out []storage.Message
-	for _, m := range ms {
-		if s.filter == nil || s.filter(m) {
-			if s.rewrite != nil {
-				m = s.rewrite(m)
+	out := ms
+	if s.filter != nil || s.rewrite != nil {
+		out = nil
+		for _, m := range ms {
+			if s.filter == nil || s.filter(m) {
+				if s.rewrite != nil {
+					m = s.rewrite(m)
+				}
+				out = append(out, m)
 			}
-			out = append(out, m)
 		}
 	}
+	if s.limit > 0 && len(out) > s.limit {
+		out = out[:s.limit]
+	}
+	s.lastRead = out
 	return out, nil
 }
 func (s *storageWrap) Close() error { return s.inner.Close() }
@@ -161,6 +182,8 @@ func (s *storageWrap) IgnoreMessages(m []string, u bool) error {
 func (s *storageWrap) UnignoreMessages() { s.inner.UnignoreMessages() }
 
 type vnode struct {
+	// cancel ends the context the node service was created with (its Poll loop returns)
+	cancel context.CancelFunc
 	idx    int
 	name   string
 	dir    string
@@ -243,7 +266,12 @@ func (c *cluster) buildNodeServices(n *vnode) error {
 	sp.SetSignatureService(n.sigSvc)
 	cfg := config.Config{Username: n.name, KeyStoreDBDSN: filepath.Join(n.dir, "keystore"),
 		HttpApiConfig: &config.HttpApiConfig{}, KafkaStorageConfig: &config.KafkaStorageConfig{Topic: topic}}
-	n.svc, err = node.NewNode(context.Background(), &cfg, &sp)
+	if n.cancel != nil {
+		n.cancel()
+	}
+	var ctx context.Context
+	ctx, n.cancel = context.WithCancel(context.Background())
+	n.svc, err = node.NewNode(ctx, &cfg, &sp)
 	return err
 }
 
@@ -309,31 +337,25 @@ type pollEvent struct {
 	Mine   bool
 }
 
-// pollOnce is one iteration of BaseNodeService.Poll (same statements, without the ticker).
+// pollOnce is one tick of the node's own poll loop (BaseNodeService.tick through the hook VerifTick: what Poll runs every
+// time its ticker fires), shown at most max messages (0: all that are there).
 func (c *cluster) pollOnce(n *vnode, max int) ([]pollEvent, error) {
-	offset, err := n.st.LoadOffset()
-	if err != nil {
-		return nil, err
+	tk, ok := n.svc.(interface{ VerifTick() error })
+	if !ok {
+		return nil, fmt.Errorf("the node service has no VerifTick hook (built without -tags verif?)")
 	}
-	msgs, err := n.stg.GetMessages(offset)
+	n.stg.limit = max
+	n.stg.lastRead = nil
+	n.lg.failed = nil
+	err := tk.VerifTick()
+	n.stg.limit = 0
 	if err != nil {
 		return nil, err
 	}
 	var out []pollEvent
-	for k, m := range msgs {
-		if max > 0 && k >= max {
-			break
-		}
-		pe := pollEvent{Offset: m.Offset, Event: m.Event, Sender: m.SenderAddr}
-		if m.RecipientAddr == "" || m.RecipientAddr == n.name {
-			pe.Mine = true
-			if err := n.svc.ProcessMessage(m); err != nil {
-				pe.Err = err.Error()
-			}
-		}
-		if err := n.st.SaveOffset(m.Offset + 1); err != nil {
-			return out, err
-		}
+	for _, m := range n.stg.lastRead {
+		pe := pollEvent{Offset: m.Offset, Event: m.Event, Sender: m.SenderAddr, Mine: m.RecipientAddr == "" || m.RecipientAddr == n.name}
+		pe.Err = n.lg.failed[m.Offset]
 		out = append(out, pe)
 	}
 	return out, nil
